@@ -47,7 +47,9 @@ Qed.
 
 Inductive item_stmt : titem -> cstmt -> Prop :=
 | is_text t : item_stmt (TText t) (SRaw t)
-| is_print p n e ds : item_stmt (TPh p n (snode (SPrint e ds))) (SPrint e ds).
+| is_print p n e ds : item_stmt (TPh p n (snode (SPrint e ds))) (SPrint e ds)
+(* an html tag of the message: soyhtml writes its text, soyjs appends it as a literal *)
+| is_tag p n q t : item_stmt (TPh p n (NMsgHtmlTag q t)) (SRaw t).
 
 Section Three.
 Variable cf : cfg.
@@ -167,7 +169,7 @@ Proof.
     repeat (split; [reflexivity|]). split; [exact Hsim|exact Hlv].
   - inversion Hd as [|? ? Hd1 Hd2]; subst. inversion Hw as [|? ? Hw1 Hw2]; subst.
     assert (Hplain : Forall plain ss).
-    { clear -Hrest. induction Hrest as [|? ? ? ? Hi _ IH']; constructor; [|exact IH']. destruct Hi; [left|right]; eauto. }
+    { clear -Hrest. induction Hrest as [|? ? ? ? Hi _ IH']; constructor; [|exact IH']. destruct Hi; [left|right|left]; eauto. }
     cbn [stmts_text] in Ht.
     destruct (sout (c_ij cf) (mode st) go_print_text (sc_lookup (ctx st)) s) as [[t1 env1]|] eqn:E1; [|discriminate].
     destruct (stmts_text (mode st) (sc_lookup (ctx st)) ss) as [t2|] eqn:E2; [|discriminate]. inversion Ht; subst text. clear Ht.
@@ -180,7 +182,7 @@ Proof.
       /\ j_out jst1 = rev (sprint (j_indent jst) (fst (sgen (mode st) (j_buf jst) (j_scope jst) (j_n jst) s))) ++ j_out jst
       /\ j_indent jst1 = j_indent jst /\ j_buf jst1 = j_buf jst /\ j_scope jst1 = j_scope jst /\ j_n jst1 = j_n jst
       /\ sim cf st1 je1 jst1 (old ++ t1) /\ lvok lv (j_scope jst1)).
-    { destruct His as [t|p n e ds].
+    { destruct His as [t|p n e ds|p n q t].
       - (* a text segment *)
         rewrite sout_raw in E1. inversion E1; subst t1 env1. clear E1.
         destruct Hsim as (Hg & Hn & ER & G & Hbuf & Hmode).
@@ -205,7 +207,30 @@ Proof.
         rewrite (walk_b_is_walk cf plural_index bd fuel _ (msgfree_print e ds) st), Ewk.
         rewrite sgen_print_eq in S3, N3. cbn [fst snd] in S3, N3.
         split; [reflexivity|]. split; [exact W1|]. split; [exact C1|]. split; [exact M1|]. split; [intro k; rewrite A1, Henv; reflexivity|].
-        split; [exact Ej|]. split; [exact Eg|]. split; [exact Og|]. repeat (split; [assumption|]). assumption. }
+        split; [exact Ej|]. split; [exact Eg|]. split; [exact Og|]. repeat (split; [assumption|]). assumption. 
+      - (* a placeholder that is an html tag *)
+        rewrite sout_raw in E1. inversion E1; subst t1 env1. clear E1.
+        destruct Hsim as (Hg & Hn & ER & G & Hbuf & Hmode).
+        destruct fuel as [|f]; [cbn in Hd1; lia|].
+        assert (Hg0 : wok (set_cur st q)) by (destruct st; exact Hg).
+        destruct (write_wok t (set_cur st q) Hg0) as (st1 & Ew & W1 & C1 & M1).
+        destruct (js_exec_stmt (c_ij cf) (mode st) (j_buf jst) (SRaw t) (j_scope jst) (j_n jst) (sc_lookup (ctx st)) je old t
+                    (sc_lookup (ctx st)) (JSAppendLit (j_buf jst) t) (j_scope jst) (j_n jst) G ltac:(apply sout_raw) ER Hbuf ltac:(reflexivity))
+          as (je1 & Ej & (ER1 & Hbuf1) & _).
+        destruct (gres_walk o f (NMsgHtmlTag q t) jst (sprint (j_indent jst) (JSAppendLit (j_buf jst) t))
+                    _ _ _ _ _ _ _ _ _ _ eq_refl (shape_refl jst)
+                    (fun st1 H1 => gres_raw_text t st1 _ _ _ _ _ H1)) as (jst1 & Eg & Og & I3 & B3 & A3 & S3 & N3).
+        exists st1, [t], je1, jst1. unfold mbind.
+        rewrite (walk_b_is_walk cf plural_index bd (S f) (NMsgHtmlTag q t) eq_refl st), walk_unfold. cbn [walk_node pos_of]. unfold mbind.
+        rewrite Ew. cbn [concat_b]. rewrite app_nil_r.
+        assert (C0 : ctx st1 = ctx st) by (rewrite C1; destruct st; reflexivity).
+        assert (M0 : mode st1 = mode st) by (rewrite M1; destruct st; reflexivity).
+        split; [reflexivity|]. split; [exact (wrote_l _ _ _ _ (pres_wsame _ _ (pres_set_cur st q)) W1)|]. split; [reflexivity|]. split; [exact M0|].
+        split; [intro k; rewrite C0; reflexivity|].
+        split; [exact Ej|]. split; [exact Eg|]. split; [exact Og|]. split; [exact I3|]. split; [exact B3|]. split; [exact S3|]. split; [exact N3|].
+        split; [|rewrite S3; exact Hlv].
+        unfold sim. split; [exact (wrote_wok _ _ _ W1 Hg0)|]. split; [rewrite C0; exact Hn|].
+        split; [rewrite S3, C0; exact ER1|]. split; [rewrite S3, N3, B3; exact G|]. split; [rewrite B3; exact Hbuf1|congruence]. }
     destruct Hstep as (st1 & ws1 & je1 & jst1 & Ego & W1 & C1 & M1 & A1 & Ej & Eg & Og & I3 & B3 & S3 & N3 & Hsim1 & Hlv1).
     (* the rest of the items from the new states *)
     assert (E2' : stmts_text (mode st1) (sc_lookup (ctx st1)) ss = Some t2).
@@ -215,17 +240,16 @@ Proof.
     rewrite M1, B3, S3, N3, I3 in *.
     exists st2, (ws1 ++ ws2), je2, jst2. cbn [stmts_js map js_exec_seq flat_map].
     split.
-    { destruct His as [t|p n e ds]; cbn [run_items]; unfold mbind in *.
+    { destruct His as [t|p n e ds|p n q t]; cbn [run_items]; unfold mbind in *.
       - destruct (write t st) as [[[]|?|?| | | ] sx]; inversion Ego; subst. exact Ego2.
-      - destruct (walk_b cf plural_index bd fuel (snode (SPrint e ds)) st) as [[x|?|?| | | ] sx]; cbn in Ego; inversion Ego; subst. exact Ego2. }
+      - destruct (walk_b cf plural_index bd fuel (snode (SPrint e ds)) st) as [[x|?|?| | | ] sx]; cbn in Ego; inversion Ego; subst. exact Ego2.
+      - destruct (walk_b cf plural_index bd fuel (NMsgHtmlTag q t) st) as [[x|?|?| | | ] sx]; cbn in Ego; inversion Ego; subst. exact Ego2. }
     split; [exact (wrote_trans _ _ _ _ _ W1 W2)|].
     split. { rewrite <- C1, <- C2. clear. induction ws1 as [|x r IHr]; [reflexivity|]. cbn [app concat_b]. rewrite IHr, app_assoc. reflexivity. }
     split; [congruence|]. split; [intro k; rewrite A2, A1; reflexivity|].
     split; [rewrite Ej; exact Ej2|].
     split.
-    { destruct His as [t|p n e ds]; cbn [jrun_items]; unfold jbind.
-      - rewrite Eg. exact Eg2.
-      - rewrite Eg. exact Eg2. }
+    { destruct His as [t|p n e ds|p n q t]; cbn [jrun_items]; unfold jbind; rewrite Eg; exact Eg2. }
     split; [rewrite Og2, Og, rev_app_distr, app_assoc; reflexivity|].
     split; [congruence|]. split; [congruence|]. split; [congruence|]. split; [congruence|].
     split; [rewrite app_assoc; exact Hsim2|exact Hlv2].
